@@ -16,6 +16,7 @@ fn main() {
     match a[1].as_str() {
         "C03" => c03::run(seed, n, replay, &mut out),
         "C05" => c05::run(seed, n, replay, &mut out),
+        "C13" => c13::run(seed, n, replay, &mut out),
         other => {
             eprintln!("unknown component {other}");
             std::process::exit(2);
